@@ -33,6 +33,23 @@ def rand_lattice(rng):
 def rand_structure(rng, lat):
     from diffpy.structure import Structure, Atom
     atoms = []
+    if rng.random() < 0.2:
+        # several atoms built from ONE caller-owned float array (positions and tensors): each atom must own its data
+        A = numpy.array([[rng.uniform(-0.1, 0.1) for _ in range(3)] for _ in range(3)])
+        Ush = A @ A.T + 0.002 * numpy.identity(3)
+        if rng.random() < 0.3:
+            Ush = 0.01 * numpy.identity(3)
+        xsh = numpy.array([rng.uniform(-1.5, 2.5) for _ in range(3)])
+        for i in range(rng.randint(2, 4)):
+            atoms.append(Atom(rng.choice(["C", "Na", "Cl"]), xsh, U=Ush))
+        S = Structure(lattice=lat)
+        for a in atoms:
+            if rng.random() < 0.5:
+                S.addNewAtom(a.element, xsh, U=Ush)
+            else:
+                S.append(a, copy=rng.random() < 0.5)
+        S._caller_arrays = [(Ush, Ush.copy()), (xsh, xsh.copy())]
+        return S
     for i in range(rng.randint(1, 6)):
         xyz = [rng.uniform(-1.5, 2.5) for _ in range(3)]
         if rng.random() < 0.5:
@@ -107,6 +124,10 @@ def run(ctx):
             for p in sorted(set(probs)):
                 ctx.violation("placeInLattice: %s" % p, {"start": repr(L0), "chain_len": len(chain), "clause": p}, key="place:%s" % p.split(" ")[0])
             cur = Lk
+        for arr, keep in getattr(S, "_caller_arrays", []):
+            if not numpy.array_equal(arr, keep):
+                ctx.violation("placeInLattice changed an array owned by the caller (the one the atoms were built from)",
+                              {"start": repr(L0), "chain_len": len(chain)}, key="place:caller-array")
         if not all(numpy.allclose(a.xyz, f, atol=1e-7) for a, f in zip(S, frac0)) or not all(numpy.allclose(a.U, u, atol=1e-8) for a, u in zip(S, U0)):
             ctx.violation("a chain of lattices ending at the start does not restore fractional coordinates / tensors",
                           {"start": repr(L0), "chain": [repr(x) for x in chain]}, kind="history", key="chain-returns")
